@@ -152,7 +152,8 @@ pub fn legal(m: &RefLog, which: Alpha) -> Vec<(&'static str, Op)> {
 }
 
 /// Operations the sequential specification refuses at this state.
-pub fn refused(m: &RefLog) -> Vec<(&'static str, Op)> {
+/// `level`: see `SeqSpec::refused_level`.
+pub fn refused(m: &RefLog, level: u8) -> Vec<(&'static str, Op)> {
     let mut v: Vec<(&'static str, Op)> = vec![];
     let st = &m.st;
     if let Some((t, n)) = st.vote {
@@ -196,6 +197,23 @@ pub fn refused(m: &RefLog) -> Vec<(&'static str, Op)> {
                 ((l.0, l.1 + 1), "YY".to_string()),
             ]),
         ));
+    }
+    // batches whose FIRST entry is accepted and whose second is refused: the
+    // call returns Err, the first entry stays (also on a log whose last is None)
+    if level >= 1 {
+        let extended = level >= 2;
+        let t = st.last.map(|l| l.0).unwrap_or(1);
+        let n = next_index(st.last.as_ref());
+        let e = |id: LogId, p: &str| (id, p.to_string());
+        v.push(("append_batch_second_gap", Op::Append(vec![e((t, n), "ok"), e((t, n + 2), "XX")])));
+        v.push(("append_batch_second_lower_term", Op::Append(vec![e((t + 1, n), "ok"), e((t, n + 1), "XX")])));
+        if extended {
+            v.push(("append_batch_second_same_id", Op::Append(vec![e((t, n), "ok"), e((t, n), "XX")])));
+            v.push(("append_batch_third_gap", Op::Append(vec![e((t, n), "ok"), e((t, n + 1), "ok"), e((t, n + 3), "XX")])));
+        }
+        if st.last.is_none() {
+            v.push(("append_batch_first_at_5_second_gap", Op::Append(vec![e((t, 5), "ok"), e((t, 7), "XX")])));
+        }
     }
     if let Some(c) = st.committed {
         if c.1 > 0 {
